@@ -240,3 +240,151 @@ package cluster_info
 //@   ensures [mapOnlyLiveNodes] result2 == nil ==> result0 != nil && (forall k in result0 :: brOK(result0[k]) && result0[k].BindRequest.Spec.SelectedNode in nodes && k == brKey(result0[k].BindRequest))
 //@   ensures [deletedOnlyMissingNodesOfPool] result2 == nil ==> (forall j int :: 0 <= j && j < len(result1) ==> brOK(result1[j]) && !(result1[j].BindRequest.Spec.SelectedNode in nodes) && poolMatch(c.nodePoolSelector, result1[j].BindRequest.Labels))
 //@ end
+
+// ==== added by helper "cache": snapshot construction (C12 C14 C01 C10) ==============================================
+// Data invariant of a ClusterInfo built by New (New dereferences nodePoolParams, stores the selector it obtained
+// without error and the data lister it created; cache.newSchedulerCache passes &sc.K8sClusterPodAffinityInfo).
+// It is the precondition of every snapshot step below.
+//@ define ciWF(c *ClusterInfo) bool = c != nil && c.dataLister != nil && c.nodePoolParams != nil && c.nodePoolSelector != nil && c.clusterPodAffinityInfo != nil
+
+// C10 "pod groups with unknown queues": a pod group whose queue is not in the snapshot gets an error (and the job a
+// fit error in snapshotPodGroups), never a panic.
+//@ func validatePodgroupQueue
+//@   props C10
+//@   requires podGroup != nil
+//@   pure
+//@   ensures [unknownQueueReported] (result == nil) == (podGroup.Spec.Queue in existingQueues)
+//@ end
+
+// the default priority: the value of the first global-default priority class, else the built-in default
+//@ func getDefaultPriority
+//@   props C10
+//@   requires dataLister != nil
+//@   modifies *
+//@   note modifies *: the error path wraps the error with github.com/pkg/errors.WithStack (external, havoc)
+//@   loop 1
+//@     invariant 0 - 1 <= rangeindex && rangeindex < len(priorityClasses)
+//@     invariant forall i int :: 0 <= i && i < len(priorityClasses) ==> priorityClasses[i] != nil
+//@ end
+
+//@ func getPodGroupPriority
+//@   props C10
+//@   requires podGroup != nil && dataLister != nil
+//@   pure
+//@ end
+
+// conf.GetConfig guards the process-wide configuration with a sync.Mutex.  Sequential model: taking and releasing
+// the lock has no effect on any location a contract mentions (no other goroutine is considered anywhere in this work).
+//@ func (*sync.Mutex).Lock
+//@   props C10
+//@   trusted
+//@   note sync.Mutex is outside the subset (DESIGN 1.4); sequential model: no effect on the heap
+//@   pure
+//@ end
+//@ func (*sync.Mutex).Unlock
+//@   props C10
+//@   trusted
+//@   note sync.Mutex is outside the subset (DESIGN 1.4); sequential model: no effect on the heap
+//@   pure
+//@ end
+
+// node filter of restricted scheduling: only nodes carrying one of the two worker labels (nodes without labels are dropped)
+//@ func filterUnmarkedNodes
+//@   props C10
+//@   requires forall i int :: 0 <= i && i < len(nodes) ==> nodes[i] != nil
+//@   note conf.GetConfig lazily creates the process-wide configuration object (package variable conf.config)
+//@   loop 1
+//@     invariant 0 - 1 <= rangeindex && rangeindex < len(nodes)
+//@     invariant forall i int :: 0 <= i && i < len(nodes) ==> nodes[i] != nil
+//@     invariant forall i int :: 0 <= i && i < len(markedNodes) ==> markedNodes[i] != nil
+//@   ensures [noNil] forall i int :: 0 <= i && i < len(result) ==> result[i] != nil
+//@ end
+
+//@ func (*ClusterInfo).isPodGroupUpForScheduler
+//@   props C10
+//@   requires ciWF(c) && podGroup != nil
+//@   pure
+//@ end
+
+//@ func (*ClusterInfo).filterUnassignedPodGroups
+//@   props C10
+//@   requires ciWF(c)
+//@   requires forall i int :: 0 <= i && i < len(podGroups) ==> podGroups[i] != nil
+//@   loop 1
+//@     invariant 0 - 1 <= rangeindex && rangeindex < len(podGroups)
+//@     invariant forall i int :: 0 <= i && i < len(assignedPodGroups) ==> assignedPodGroups[i] != nil && (exists j int :: 0 <= j && j < len(podGroups) && podGroups[j] == assignedPodGroups[i])
+//@   ensures [noNil] forall i int :: 0 <= i && i < len(result) ==> result[i] != nil
+//@   ensures [subset] forall i int :: 0 <= i && i < len(result) ==> (exists j int :: 0 <= j && j < len(podGroups) && podGroups[j] == result[i])
+//@ end
+
+//@ func (*ClusterInfo).snapshotConfigMaps
+//@   props C10
+//@   requires ciWF(c)
+//@   loop 1
+//@     invariant 0 - 1 <= rangeindex && rangeindex < len(configMaps)
+//@     invariant forall i int :: 0 <= i && i < len(configMaps) ==> configMaps[i] != nil
+//@     invariant result != nil && fresh(result)
+//@ end
+
+//@ func (*ClusterInfo).snapshotTopologies
+//@   props C10
+//@   requires ciWF(c)
+//@ end
+
+// ---- C12: the tasks of the snapshot ---------------------------------------------------------------------------------
+// a LIVE bind request of the pod: one is stored under the pod's key (snapshotBindRequests stores only requests whose
+// selected node is in the snapshot) and it is not terminally failed (bindrequest_info.brFailed)
+//@ define brLive(brm bindrequest_info.BindRequestMap, pod *v1.Pod) bool = bindrequest_info.objKey(pod.Namespace, pod.Name) in brm && !bindrequest_info.brFailed(brm[bindrequest_info.objKey(pod.Namespace, pod.Name)].BindRequest)
+//@ define brOf(brm bindrequest_info.BindRequestMap, pod *v1.Pod) *bindrequest_info.BindRequestInfo = brm[bindrequest_info.objKey(pod.Namespace, pod.Name)]
+//@ define brMapOK(brm bindrequest_info.BindRequestMap) bool = forall k in brm :: brm[k] != nil && brm[k].BindRequest != nil
+
+// C12 "From the moment the scheduler creates a BindRequest until it reaches a terminal outcome, every snapshot charges
+// the pod's resources (including GPU groups ...) to the selected node ...; requests for deleted nodes and terminally
+// failed requests are deleted and their pods become schedulable again": task t was built from its pod and the bind
+// request map: with a live request a pending, unbound, undeleted pod is Binding (taskStatusOf), placed on the request's
+// SelectedNode and carries its SelectedGPUGroups; without one (none stored: never created, already deleted, selected
+// node not in the snapshot; or terminally failed) it is Pending/Gated on no node ("").
+//@ define builtFrom(t *pod_info.PodInfo, brm bindrequest_info.BindRequestMap) bool = t.Status == pod_info.taskStatusOf(t.Pod, brLive(brm, t.Pod)) && t.NodeName == ite(t.Pod.Spec.NodeName == "" && brLive(brm, t.Pod), brOf(brm, t.Pod).BindRequest.Spec.SelectedNode, t.Pod.Spec.NodeName) && (brLive(brm, t.Pod) && len(brOf(brm, t.Pod).BindRequest.Spec.SelectedGPUGroups) > 0 ==> t.GPUGroups == brOf(brm, t.Pod).BindRequest.Spec.SelectedGPUGroups) && t.BindRequest == ite(brLive(brm, t.Pod), brOf(brm, t.Pod), nil)
+// what node_info.AddTask needs of a task (node_info.taskWF) with request objects that no node accounting can share
+//@ define newTask(t *pod_info.PodInfo) bool = t != nil && fresh(t) && t.Pod != nil && t.ResReq != nil && fresh(t.ResReq) && t.ResReq.scalarResources != nil && fresh(t.ResReq.scalarResources) && t.AcceptedResource != nil && fresh(t.AcceptedResource) && t.AcceptedResource.scalarResources != nil && fresh(t.AcceptedResource.scalarResources) && (t.ResReq.migResources == nil || fresh(t.ResReq.migResources)) && fresh(t.AcceptedResource.migResources)
+// The lists are quantified over their element CELLS (r = &m[n][j], `incells`): the index form m[n][j] puts arithmetic
+// into the quantifier patterns and the solvers do not get through `append`.
+// every task listed under node name n: is new, is on n, is (not) a reservation pod, and was built from its pod and brm
+//@ define listNew(m map[string][]*pod_info.PodInfo) bool = forall n string, r **pod_info.PodInfo :: n in m && incells(r, m[n]) ==> newTask(*r)
+//@ define listKeyed(m map[string][]*pod_info.PodInfo, resv bool) bool = forall n string, r **pod_info.PodInfo :: n in m && incells(r, m[n]) ==> (*r).NodeName == n && pod_info.isReservationPod((*r).Pod) == resv
+//@ define listBuilt(m map[string][]*pod_info.PodInfo, brm bindrequest_info.BindRequestMap) bool = forall n string, r **pod_info.PodInfo :: n in m && incells(r, m[n]) ==> builtFrom(*r, brm)
+//@ define listDistinct(m map[string][]*pod_info.PodInfo) bool = forall n string, r1 **pod_info.PodInfo, r2 **pod_info.PodInfo :: n in m && incells(r1, m[n]) && incells(r2, m[n]) && r1 != r2 ==> *r1 != *r2
+// pod p has its task in the list of the node it was placed on
+//@ define podListed(m map[string][]*pod_info.PodInfo, p *v1.Pod) bool = exists n string, r **pod_info.PodInfo :: n in m && incells(r, m[n]) && (*r).Pod == p
+
+//@ func (*ClusterInfo).getNodeToPodInfosMap
+//@   props WIPcache
+//@   requires ciWF(c) && resource_info.vmWF(vectorMap) && brMapOK(bindRequests) && resource_info.claimsNonNil(draResourceClaims)
+//@   requires forall i int :: 0 <= i && i < len(allPods) ==> allPods[i] != nil
+//@   modifies vectorMap.namesToIndex[*], vectorMap.resourceNames
+//@   loop 1
+//@     invariant 0 - 1 <= rangeindex && rangeindex < len(allPods)
+//@     invariant resource_info.vmWF(vectorMap)
+//@     invariant nodePodInfosMap != nil && fresh(nodePodInfosMap) && nodeReservationPodInfosMap != nil && fresh(nodeReservationPodInfosMap) && nodePodInfosMap != nodeReservationPodInfosMap
+//@     invariant resource_info.podClaimsNonNil(podsToClaimsMap) && resource_info.claimMapNonNil(draClaimMap)
+//@     invariant resource_info.draIndexFrame(podsToClaimsMap)
+//@     invariant listNew(nodePodInfosMap)
+//@     invariant listNew(nodeReservationPodInfosMap)
+//@     invariant listKeyed(nodePodInfosMap, false)
+//@     invariant listKeyed(nodeReservationPodInfosMap, true)
+//@     invariant listBuilt(nodePodInfosMap, bindRequests)
+//@     invariant listBuilt(nodeReservationPodInfosMap, bindRequests)
+//@     invariant listDistinct(nodePodInfosMap)
+//@     invariant listDistinct(nodeReservationPodInfosMap)
+//@     invariant forall i int :: 0 <= i && i <= rangeindex ==> podListed(nodePodInfosMap, allPods[i]) || podListed(nodeReservationPodInfosMap, allPods[i])
+//@   loop 2
+//@     invariant 0 - 1 <= rangeindex
+//@     invariant resource_info.vmWF(vectorMap)
+//@   ensures [noError] result2 == nil && result0 != nil && result1 != nil && result0 != result1
+//@   ensures [tasksAreNew] listNew(result0) && listNew(result1)
+//@   ensures [listedUnderOwnNode] listKeyed(result0, false) && listKeyed(result1, true)
+//@   ensures [bindingPodsOnSelectedNode] listBuilt(result0, bindRequests) && listBuilt(result1, bindRequests)
+//@   ensures [noTaskTwice] listDistinct(result0) && listDistinct(result1)
+//@   ensures [everyPodListed] forall i int :: 0 <= i && i < len(allPods) ==> podListed(result0, allPods[i]) || podListed(result1, allPods[i])
+//@   ensures [layout] resource_info.vmWF(vectorMap)
+//@ end
